@@ -8,6 +8,7 @@ import pandas as pd
 from pandera import dtypes
 from pandera.api.checks import Check
 from pandera.engines import pandas_engine
+from pandera.errors import ParserError
 
 
 def infer_dataframe_statistics(df: pd.DataFrame) -> Dict[str, Any]:
@@ -226,8 +227,12 @@ def _get_array_type(x):
         inferred_alias = pd.api.types.infer_dtype(x, skipna=False)
         if inferred_alias != "string":
             try:
-                data_type = pandas_engine.Engine.dtype(inferred_alias)
-            except TypeError:
+                inferred_type = pandas_engine.Engine.dtype(inferred_alias)
+                # the values must be representable in the inferred type,
+                # e.g. python integers beyond the range of int64 are not
+                inferred_type.try_coerce(x)
+                data_type = inferred_type
+            except (TypeError, ParserError):
                 # not every result of infer_dtype names a data type, e.g.
                 # "empty" for an array without elements: keep object
                 pass
